@@ -30,6 +30,15 @@ CHECKS = {
             "reference interpreter computes on the called node's own effective table.",
             "Parameter types are unambiguous builtin chains (resolution itself is C02's matter).",
             "DESIGN.md §4 C08"),
+    "C17": ("exploration",
+            "runtime monitor: class-body reference model vs calls on instances of every class after every class statement",
+            "Generated class source (OvldBase / OvldMC / plain mixins / create_subclass, extend_super, recurse and "
+            "call_next bodies) is executed statement by statement; after each statement every class so far is probed "
+            "and compared with a class-body model, which also decides that bases and siblings did not change and "
+            "that self is the instance.",
+            "Builtin parameter types in single-inheritance chains; multi-base inheritance of a name without own "
+            "definitions is unspecified; F20/F21 recorded as known findings with defect-model classifiers.",
+            "DESIGN.md §4 C17"),
 }
 
 PENDING_REASON = ("check not built yet in this session (runtime-monitoring design exists in DESIGN.md §4); "
